@@ -223,6 +223,28 @@ fn check_c07_case(case: &BoundCase, env: &mut Env) -> Verdict {
             }
         }
     }
+    // every synchronised report replaces the bound, also one whose reference time is a little
+    // earlier than that of the previous one (clock stepped back, source reselected): fresh is fresh
+    {
+        let mut r3 = *r;
+        r3.ref_time_ns -= 1_000_000_000;
+        std::mem::swap(&mut r3.delay, &mut r3.disp);
+        let (b3, st3) = dv::extract_bound(tracking_of(&r3));
+        if st3 == ChronyClockStatus::Synchronized && judge_bound(&r3, b3).is_ok() {
+            let p3 = case.phc.unwrap_or(0);
+            up.process_clock_update(tracking_of(&r3), p3, ts(case.as_of_ns as i128 + 2_000_000_000));
+            v.sub_evals += 1;
+            let recs = sink.0.borrow();
+            if let Some(last) = recs.last() {
+                if last.bound as i128 != b3 as i128 + p3 as i128 || last.status != 1 {
+                    v.fail(format!(
+                        "a second synchronised report (reference time 1 s before the first one's, delay and dispersion swapped) was published with bound {} and status {}; its own sum is {} (+ PHC {})",
+                        last.bound, last.status, b3, p3
+                    ));
+                }
+            }
+        }
+    }
     // the PHC term end to end: the same report polled twice through the real poller loop while the
     // PHC error-bound file changes from phc_prev to phc; each published bound must carry the value
     // the file holds at that poll
@@ -287,7 +309,7 @@ impl Property for C07 {
     type Case = BoundCase;
     const ID: &'static str = "C07";
     fn rule() -> String {
-        "cases = tracking replies built at wire level (exponent and coefficient fields of the 32-bit chrony floats drawn separately, whole reply deserialised by chrony-candm): |offset| (random sign), delay, dispersion in [0, 2^20 s] incl. 0, the smallest positive value per exponent down to 2^-64 s, powers of two, normalised us..ms values; PHC error bound absent or in [0,2^50]. Oracle: S = (|offset|+disp+delay/2)*1e9 as an exact integer over 2^66; require 0 <= bound, S(1-2^-45) <= bound <= ceil(S(1+2^-45)), published = bound + PHC, unchanged by a following unsynchronised answer that comes with another PHC value; for a quarter of the cases the same report is also polled twice through the real poller loop while the PHC error-bound file changes, and each published bound must carry the value the file holds at that poll. Non-trivial: offset < 0, or S not an integer, or all three terms non-zero.".into()
+        "cases = tracking replies built at wire level (exponent and coefficient fields of the 32-bit chrony floats drawn separately, whole reply deserialised by chrony-candm): |offset| (random sign), delay, dispersion in [0, 2^20 s] incl. 0, the smallest positive value per exponent down to 2^-64 s, powers of two, normalised us..ms values; PHC error bound absent or in [0,2^50]. Oracle: S = (|offset|+disp+delay/2)*1e9 as an exact integer over 2^66; require 0 <= bound, S(1-2^-45) <= bound <= ceil(S(1+2^-45)), published = bound + PHC, unchanged by a following unsynchronised answer that comes with another PHC value, and replaced by a second synchronised report whose reference time is 1 s earlier; for a quarter of the cases the same report is also polled twice through the real poller loop while the PHC error-bound file changes, and each published bound must carry the value the file holds at that poll. Non-trivial: offset < 0, or S not an integer, or all three terms non-zero.".into()
     }
     fn assumptions() -> Vec<String> {
         vec!["floating-point tolerance 2^-45 relative on the sum; values restricted to exponents -39..21 (2^-64 s .. 2^20 s) so that the result fits i64/f64".into()]
@@ -1161,6 +1183,45 @@ fn check_c09_case(case: &HistCase, env: &mut Env) -> Verdict {
                     via_raw.as_of_ns_total()
                 ));
             }
+        }
+    }
+    // the updater driving the real segment writer itself (no recording wrapper in between), over a
+    // segment left by a previous run - a measured Synchronized record, or the place-holder of a run
+    // that never synchronised: what a previous run left behind is not a measurement of this run
+    if case.preexisting {
+        for (k, old) in [
+            Rec { as_of_s: 7, as_of_ns: 0, void_s: 1007, void_ns: 0, bound: 123_456, drift: case.drift, reserved: 0, status: 1 },
+            Rec { as_of_s: 0, as_of_ns: 0, void_s: 1000, void_ns: 0, bound: 0, drift: case.drift, reserved: 0, status: 0 },
+        ]
+        .iter()
+        .enumerate()
+        {
+            let path = env.fresh_path("c09-direct");
+            let _ = std::fs::remove_file(&path);
+            if std::fs::write(&path, crate::layout::segment_bytes(&Hdr::valid(40), old)).is_err() {
+                continue;
+            }
+            if let Ok(writer) = crate::shmutil::new_writer(&path) {
+                let mut up = dv::Updater::new(writer, case.drift);
+                up.process_missing_clock_update(true);
+                v.sub_evals += 1;
+                let bytes = std::fs::read(&path).unwrap_or_default();
+                if bytes.len() >= crate::layout::SEG_LEN {
+                    let rec = Rec::decode(&bytes[crate::layout::HEADER_LEN..crate::layout::SEG_LEN]);
+                    if rec.status != 0 {
+                        v.fail(format!(
+                            "a daemon started over the segment of a previous run ({}) and published status {} (bound {}, as_of {}) after a brief outage, before any synchronised report of its own",
+                            if k == 0 { "Synchronized record" } else { "place-holder record of a run that never synchronised" },
+                            rec.status,
+                            rec.bound,
+                            rec.as_of_ns_total()
+                        ));
+                    }
+                }
+                drop(up);
+            }
+            let _ = std::fs::remove_file(&path);
+            crate::shmutil::close_leaked_under(&env.dir);
         }
     }
     let mut client_on_untrusted = false;
